@@ -371,7 +371,10 @@ func (c *Ctx) genC17() {
 			nf = 1 + c.rng.Intn(5)
 		}
 		for k := 0; k < nf; k++ {
-			w.startFlow(fmt.Sprintf("/app/page%d?q=%d&x=a%%20b", k, c.rng.Intn(100)))
+			// the URL the browser asked for, verbatim: escapes in the path (an encoded slash, question mark, percent sign,
+			// non-ASCII) are part of it
+			paths := []string{"/app/page%d", "/app/a%%2Fb/page%d", "/wiki/What%%3Fnext=%%2Fadmin/%d", "/files/100%%25/%d", "/caf%%C3%%A9/%d", "/app/page%d"}
+			w.startFlow(fmt.Sprintf(paths[(h+k)%len(paths)]+"?q=%d&x=a%%20b", k, c.rng.Intn(100)))
 			w.now = w.now.Add(time.Duration(1+c.rng.Intn(10)) * time.Second)
 		}
 		// adversarial deliveries before anything completes
